@@ -84,8 +84,21 @@ def run(ctx):
                         ret[p] = api._store_var.fetch_blob(key)
                     except BaseException as e:
                         ret[p] = "EXC:%s:%s" % (type(e).__name__, str(e)[:80])
-                    if ret[p] != v:
-                        res.violations.append({"what": "under commit type %s the blob for %s reads back as %r" % (member, p, ret[p]), "input": case, "kf": None})
+                    if ret[p] != v or type(ret[p]) is not type(v):
+                        res.violations.append({"what": "under commit type %s the blob for %s reads back as %r (%s)" % (member, p, ret[p], type(ret[p]).__name__), "input": case, "kf": None})
+                # results whose type derives from str / bytes (a str-valued enum member, a subclass of bytes): they come back as themselves
+                from .c17 import Color, Digest, TaggedStr
+                for j, v2 in enumerate([Color.RED, Digest(b"\x01\x02"), TaggedStr("t", tag=3)]):
+                    key2 = "sigsub%d" % j
+                    try:
+                        api._store_var.store_blob(key2, v2, None)
+                        got2 = api._store_var.fetch_blob(key2)
+                    except BaseException as e:
+                        got2 = "EXC:%s:%s" % (type(e).__name__, str(e)[:80])
+                    res.evaluations += 1
+                    if type(got2) is not type(v2) or got2 != v2 or getattr(got2, "tag", None) != getattr(v2, "tag", None):
+                        res.violations.append({"what": "under commit type %s a result of type %s (%r) reads back as %r (%s)" % (
+                            member, type(v2).__name__, v2, got2, type(got2).__name__), "input": case, "kf": None})
                 data = files_under(os.path.join(d, "dds_data")) if os.path.isdir(os.path.join(d, "dds_data")) else {}
                 want = {}
                 if member in ("FULL", "LINK_ONLY"):
